@@ -190,3 +190,65 @@ def run(payload):
     from sc3.base.stream import routine, Routine
     mods = (main, TempoClock, Quant, routine, Routine)
     return [run_case(c, mods) for c in payload['cases']]
+
+
+# ---------------------------------------------------------------------------------------------
+# real-time mode: play(quant) called from the MAIN thread (outside any routine)
+# ---------------------------------------------------------------------------------------------
+
+def run_rt(payload):
+    """Real-time mode under the virtual-time driver (harness/vtime.py).  The main time thread's logical
+    time is refreshed from the physical clock at EVERY read; to make that visible deterministically
+    every read of `main.elapsed_time()` advances the virtual physical time by `tick` seconds.
+    For each play: the current beat read before the call, and the beat the task was put in the clock's
+    queue at (read from `clock._task_queue`, nothing runs in between)."""
+    from harness import vtime
+    vt = vtime.boot(start=100.0, epoch=1_700_000_000.0)
+    from sc3.base.main import main
+    from sc3.base.clock import TempoClock, Quant
+    from sc3.base.stream import routine, Routine
+    tick = [2.0 ** -14]
+
+    def stepping(cls=None):
+        vt.advance(tick[0])
+        return vt.now
+    main.elapsed_time = stepping
+    out = []
+    for case in payload['cases']:
+        res = {'plays': []}
+        try:
+            tick[0] = float(Fraction(case.get('tick', '1/16384')))
+            vt.advance(float(Fraction(case.get('skip', '0'))))
+            clock = TempoClock(pf(case['tempo']), pf(case.get('beats', '-')), None)
+            vt.settle()
+            res['origin'] = fr(clock.base_bar_beat)
+            for q, p, via in case['plays']:
+                def body():
+                    yield 1
+                qv, pv = pnum(q), pnum(p)
+                quant = Quant(qv, pv)
+                before = clock.beats
+                if via == 'clock':
+                    task = routine(body)
+                    clock.play(task, quant)
+                elif via == 'rplay':
+                    task = routine(body)
+                    task.play(clock, quant)
+                elif via == 'rrun':
+                    task = Routine.run(body, clock, quant)
+                elif via == 'deco':
+                    task = routine.run(clock, quant)(body)
+                else:
+                    task = routine(body)
+                    task.pause()
+                    task.resume(clock, quant)
+                after = clock.beats
+                sched = [t for t, x in clock._task_queue if x is task]
+                res['plays'].append([fr(before), fr(sched[0]) if len(sched) == 1 else f'E:{len(sched)}-entries',
+                                     fr(after)])
+            clock.stop()
+            vt.settle()
+        except Exception as e:
+            res['error'] = f'E:{type(e).__name__}: {e}'
+        out.append(res)
+    return out
